@@ -197,10 +197,12 @@ func extUniverse() []any {
 		[]any{"a", "b"}, []any{"a", 0}, []any{0, "a"}, []any{[]any{0}, []any{1}}, []any{[]any{"a", "b"}, []any{"a"}}, []any{[]any{"a"}, []any{"a", "b"}}, []any{nil}, []any{true}, []any{1.5}, []any{[]any{true}},
 		[]any{[]any{-1}}, []any{[]any{5}}, []any{[]any{1}, []any{1}}, []any{[]any{0, 0}, []any{0, "a"}}, []any{1}, []any{"b"}, []any{[]any{"b"}}, []any{100}, []any{-5},
 		map[string]any{"start": nil, "end": -1}, map[string]any{"start": "a", "end": 1}, map[string]any{"start": 1}, map[string]any{"start": 1.5, "end": 2.5}, map[string]any{"start": 2, "end": 1},
+		[]any{map[string]any{"start": 0, "end": 1.5}}, []any{map[string]any{"start": 0.5, "end": 2.5}}, []any{[]any{map[string]any{"start": 0, "end": 1.5}}}, []any{map[string]any{"start": -1.5, "end": nil}},
 		[]any{map[string]any{"start": 0, "end": 1}}, []any{map[string]any{"start": 1, "end": 3}, 0}, []any{[]any{map[string]any{"start": 0, "end": 1}}}, []any{[]any{map[string]any{"start": 1, "end": nil}, 0}},
 		[]any{[]any{1, 2, 3}, []any{4, 5, 6}}, []any{[]any{1}, 2}, []any{[]any{}, []any{1, 2}}, []any{[]any{[]any{1}}, []any{[]any{[]any{2}}}},
 		[]any{"a", 1, nil, true}, []any{"a", "b", "a"}, []any{1.5, "x"}, []any{[]any{"b"}, []any{"a"}}, []any{[]any{2}, []any{1}, []any{2}, []any{1}, []any{3}}, []any{1, 1, 2, 2, 3},
 		[]any{65, 0x1F600, -1, 1114112, 55296, 233}, []any{65, "a"}, []any{1.9, 66.5},
+		[]any{4294967361}, []any{9007199254740992.0}, []any{-4294967231}, []any{1099511756288, 66}, []any{4294967296, bigOf("18446744073709551681")}, []any{2147483713, -2147483583},
 		[]any{"a\"b", "c,d", 1, nil, true, 1.5, "\t"}, []any{[]any{1}}, []any{map[string]any{}}, []any{math.NaN(), math.Inf(1)},
 		[]any{2024, 1, 29, 12, 30, 15.5, 4, 59}, []any{2024, 1}, []any{1970, 0, 1, 0, 0, 0, 4, 0}, []any{2015, 2, 5, 23, 51, 47, 4, 63}, []any{2024, 13, 0, -1, 61, 60.25}, []any{"a", 1}, []any{2024, 1, 29, 12, 30, "x"}, []any{1, 1, 1, 1, 1, 1e19},
 		[]any{map[string]any{"name": "x", "string": "s"}, map[string]any{"name": nil, "string": "t"}, map[string]any{"name": "x", "string": nil}, 1},
@@ -416,6 +418,11 @@ func main() {
 	car := ctx.NewOracle("carrier-swap", "the same native call with every number of input and arguments carried as int / *big.Int / json.Number (integers) or float64 / json.Number (fractions) gives equal canonical results (messages and printed literals compared only when the carriers print identically); distinct = distinct (native, canonical answer) among calls that contain a number")
 
 	var lines, impl, labels []string
+	type rec struct {
+		n native
+		t tuple
+	}
+	var recs []rec
 	totDistinct := map[string]bool{}
 	carDistinct := map[string]bool{}
 	isMath := func(n native) bool {
@@ -434,6 +441,7 @@ func main() {
 		lines = append(lines, protoLine(n.name, t))
 		impl = append(impl, a.text)
 		labels = append(labels, label(n.name, t))
+		recs = append(recs, rec{n, t})
 		st.Distribution[n.name]++
 		// oracle: totality
 		tot.Cases++
@@ -527,7 +535,22 @@ func main() {
 		os.WriteFile(d, []byte(sb.String()), 0o644)
 	}
 	tCalls := time.Now()
-	ctx.RunStream(st, lines, impl)
+	lawsO := newLawsOracle(ctx)
+	cl := compileLaws()
+	if model, err := common.RunDriver(ctx.Driver, []string{st.Name}, lines); err != nil {
+		ctx.Errorf("stream %s: %v", st.Name, err)
+	} else {
+		st.Compare(lines, impl, model)
+		// a disagreement is handed to the laws that speak about that native: they decide, on
+		// exactly that call, whether the REAL code departs from the documented function
+		judged := 0
+		for i := range lines {
+			if i < len(model) && model[i] != impl[i] && !strings.HasPrefix(model[i], "?") && judged < 400 {
+				judged++
+				judgeDisagreements(ctx, lawsO, cl, recs[i].n.name, recs[i].t)
+			}
+		}
+	}
 	if os.Getenv("C03_STREAM_ONLY") != "" {
 		ctx.Finish()
 	}
@@ -535,7 +558,7 @@ func main() {
 	t1 := time.Now()
 	builtinJqOracle(ctx)
 	t2 := time.Now()
-	lawsOracle(ctx)
+	lawsOracle(ctx, lawsO, cl)
 	replayFilter(ctx)
 	ctx.Res.Notes = append(ctx.Res.Notes,
 		fmt.Sprintf("phases: native calls + carrier swap %.0fs, driver %.0fs, builtin-jq %.0fs, laws %.0fs", tCalls.Sub(t0).Seconds(), t1.Sub(tCalls).Seconds(), t2.Sub(t1).Seconds(), time.Since(t2).Seconds()),
